@@ -176,6 +176,7 @@ Judge(st, e) ==
     [] e.op = "api"      -> JudgeApi(st, e)
     [] e.op = "misdelivery" -> <<"packet-handed-to-another-connections-stream", st>>
     [] e.op = "misdirection" -> <<"packet-handed-to-the-wrong-half-of-its-connection", st>>
+    [] e.op = "orphancomplete" -> <<"stream-of-a-recycled-connection-object-completed", st>>
     [] e.op = "overlap"  -> <<"concurrent-callbacks-on-one-stream", st>>
     [] e.op = "stuck"    -> <<"deadlock-or-stall", st>>
     [] e.op = "race"     -> <<"data-race", st>>
